@@ -23,6 +23,10 @@ type vfC16Case struct {
 	// confirmed by the server) that was then lost; Component.Resume() connects again
 	Prior   bool   `json:"prior,omitempty"`
 	PriorID string `json:"prior_id,omitempty"`
+	// Reconnecting: the application's event handler reacts to a stream error the way StreamManager.Run's handler does -
+	// disconnect and, unless the error is a conflict, connect again at once (from inside the failing call). The
+	// server accepts that next connection. Whatever the handler does, a refused handshake is a refused handshake.
+	Reconnecting bool `json:"reconnecting,omitempty"`
 }
 
 var vfC16Replies = []string{"handshake", "handshake", "handshake-text", "stream-error:not-authorized", "stream-error:host-unknown", "stream-error:conflict", "stream-error:vf-unknown",
@@ -53,6 +57,26 @@ func vfC16Run(run *vfkit.Run, cs *vfC16Case) {
 			<-release
 			pc.Close()
 			return
+		}
+		judged := 0
+		if cs.Prior {
+			judged = 1
+		}
+		if pc.N > judged { // a connection the handler opened on its own: a healthy server accepts it
+			if _, err := pc.Expect("stream"); err != nil {
+				return
+			}
+			pc.Send("<?xml version='1.0'?><stream:stream xmlns:stream='http://etherx.jabber.org/streams' xmlns='jabber:component:accept' from='comp.localhost' id='nested'>")
+			if e, err := pc.Next(); err != nil || !e.Is("", "handshake") {
+				return
+			}
+			pc.Send("<handshake/><message id='after-nested-handshake' from='x@y' to='comp.localhost'><body>hi</body></message>")
+			pc.idle = 500 * time.Millisecond
+			for {
+				if e, err := pc.Next(); err != nil || e.Kind == "close" {
+					return
+				}
+			}
 		}
 		defer close(sentAfter)
 		if _, err := pc.Expect("stream"); err != nil {
@@ -131,6 +155,19 @@ func vfC16Run(run *vfkit.Run, cs *vfC16Case) {
 	obs.catchAll(router)
 	comp, _ := NewComponent(ComponentOptions{TransportConfiguration: TransportConfiguration{Address: peer.Addr(), ConnectTimeout: 1}, Domain: "comp.localhost", Secret: cs.Secret}, router, obs.onError)
 	comp.SetHandler(obs.onEvent)
+	if cs.Reconnecting {
+		comp.SetHandler(func(e Event) error {
+			obs.onEvent(e)
+			if e.State.state == StateStreamError {
+				comp.Disconnect()
+				if e.StreamError != "conflict" {
+					return comp.Resume()
+				}
+			}
+			return nil
+		})
+		run.Count("cases_with_reconnecting_handler", 1)
+	}
 	var cerr error
 	if cs.Prior {
 		if err := comp.Connect(); err != nil {
@@ -258,6 +295,7 @@ func TestVf_C16(t *testing.T) {
 				default:
 					cs.Secret = vfkit.Text(r, 20, true)
 				}
+				cs.Reconnecting = r.Intn(3) == 0
 				if r.Intn(4) == 0 {
 					cs.Prior = true
 					cs.PriorID = vfkit.Text(r, 16, false)
